@@ -12,6 +12,7 @@ let table = [
   ("guards", Model.entry_guards);
   ("p2precv", Model.entry_p2precv);
   ("dispatch", Model.entry_dispatch);
+  ("conntable", Model.entry_conntable);
   ("abi", Model.entry_abi);
   ("adaptor", Model.entry_adaptor);
   ("firstevent", Model.entry_firstevent);
